@@ -3,6 +3,9 @@
 import json, subprocess
 props=[json.loads(l) for l in open('/verif/properties.jsonl')]
 checks = {
+ "C01": dict(cat="model_checking", tech="twin-replica execution of every catalogue history on the real application with every single deviation of a controlled nondeterminism source: map iteration order at every dynamic occurrence (build-time seam rewriter over all `range` over maps, time.Now, uuid.NewUUID), node identity/role/wallet/job store, clock, tx-index lag",
+   text="The binary is built with a go/packages rewriter that routes every `for range` over a Go map, every time.Now() and every uuid.NewUUID() of the application's module through a seam. For every catalogue history a lead replica logs every dynamic map iteration with >= 2 keys (choice point); for every choice point and every alternative order (quick: all n! for n<=3, 6 of 23 for n=4; thorough: all n! for n<=4 and pairs of deviations) a second replica is fed the same requests with that one order changed, its clock +400 days and another UUID node; further second replicas are a non-validator non-witness node with other keys/wallet/OLTEST, a restarted witness (flag on), a witness whose job store is wiped after block k (every k), and a node whose tx index lags one block (history extended by a re-delivery of the target). App hash, validator updates and tx code/data/gas of every block must be equal.",
+   note="Map ranges / clocks inside Tendermint, IAVL, go-ethereum and goleveldb are assumed deterministic. Histories are the catalogue's. Known finding (listed per kind): the node-local tx index is consensus input for re-delivered transactions.", ref="DESIGN.md section 3 C01"),
  "C02": dict(cat="model_checking", tech="explicit-state exploration on the real application: every catalogue state x every adversarial (amount, currency) substitution of every amount-bearing field, both admission paths, ledger oracle on every block",
    text="Reachable chain states are the 125 catalogue histories (every transaction kind, every block-level hook). In the state where a scenario's target is valid the target is replaced by an attack: one amount leaf set to each of {-1, -same, -huge, 0, 1, +1, 2^63, 2^64+1, 2^64+small, 10^40} crossed with the sibling currency in {same, ETH, XXX, VT}, correctly re-signed; sent through CheckTx (delivered only if admitted) and delivered directly; followed by 8 empty blocks (all maturities). After every block of every execution, including the unmodified histories, the committed key/value state is decoded into a ledger: per currency the total may grow only by the delegation rewards accrued in that block (and, for wrapped currencies, only in a block in which a tracker became final); no stored amount may be negative; key families the decoder does not know are reported.",
    note="Amounts outside the listed representatives and values inside embedded Ethereum transactions are not enumerated (the latter are C15's subject). The decoder's notion of 'value held on chain' is listed in the evidence assumptions.", ref="DESIGN.md section 3 C02"),
